@@ -37,6 +37,18 @@ CHECKS = {
    note="Trusted: hook placement under the group / controller locks, goroutine-id attribution of group hooks to proxies, TLC. One group name per history; tcpmux groups without traffic probes.",
    technique="TLA+ spec FrpsGroups model-checked with TLC + trace validation of real frps executions (Trace_FrpsGroups)",
    design="4 (C13), 3.4"),
+ "C06": dict(
+   level="model_checking",
+   text="TLC enumerates every route table of up to 3 (quick) / 4 (thorough) routes over {a.x.io, b.x.io, *.x.io, *.b.x.io, *} x 4 locations x 3 route-by-user values reachable by register / unregister histories (36k / ~0.5M tables) and, for every table and every request (4 hosts x 5 paths x 3 users), checks that the code's lookup (sorted buckets, user-then-generic, wildcard walk with two fixed labels, catch-all) equals the independently defined most specific match, that the match is unique and that unmatched requests find nothing; the real vhost.Routers / HTTPReverseProxy, HTTPS muxer (real TLS ClientHellos) and tcpmux muxer (real CONNECTs) are driven through seeded register / unregister / take-over histories, after each step the whole request alphabet is sent for real, and the route (backend) that received each request is compared by TLC with MostSpecific on the specification's table (Trace_Routes), including keep-alive reuse of backend connections, mixed-case hosts, port suffix and trailing dot.",
+   note="Trusted: TLC, the driver's observation of which backend / listener received each request. Component level (the real pkg/util/vhost and pkg/util/tcpmux objects, not a whole frps); host/location/user alphabets are small; sharing the vhost port with the control port is not driven.",
+   technique="TLA+ spec Routes model-checked with TLC (all tables x all requests) + trace validation of real router / muxer / reverse-proxy executions (Trace_Routes)",
+   design="4 (C06), 3.5"),
+ "C07": dict(
+   level="model_checking",
+   text="Same specification Routes; the real HTTPReverseProxy is served origin-form, absolute-form and h2c requests with 8 classes of Authorization / Proxy-Authorization headers (absent, right, wrong password, other user, malformed base64, empty user, lower-case scheme) against tables mixing protected, unprotected and user-routed routes, and the real tcpmux muxer is sent CONNECTs with the same classes; for every request TLC checks on the specification's table that a protected backend was reached only with exactly its credentials, that the route used for the check is the route used for forwarding (the most specific one for the forwarding user), and that refusals are 401 / 404 / not handed on.",
+   note="Trusted: TLC, the driver's backend-side log as the negative oracle. The http_proxy / socks5 / static_file client plugins and the dashboard / admin web APIs are not driven by this check; timing side channels are out of scope.",
+   technique="TLA+ spec Routes + trace validation of real reverse-proxy / CONNECT-muxer executions (Trace_Routes)",
+   design="4 (C07), 3.5"),
 }
 
 hooks_commits = subprocess.run("git -C /repo log --format=%h --grep='^verif:' --reverse", shell=True, capture_output=True, text=True).stdout.split()
